@@ -54,8 +54,10 @@ pub enum Hdrs {
     ObsText,
     SetAfterAppend,
     OwnedOverride,
+    /// the caller supplies User-Agent and Accept with empty values: they go out as supplied
+    EmptyDefaults,
 }
-const HDRS: [Hdrs; 6] = [Hdrs::None, Hdrs::One, Hdrs::DupAppend, Hdrs::ObsText, Hdrs::SetAfterAppend, Hdrs::OwnedOverride];
+const HDRS: [Hdrs; 7] = [Hdrs::None, Hdrs::One, Hdrs::DupAppend, Hdrs::ObsText, Hdrs::SetAfterAppend, Hdrs::OwnedOverride, Hdrs::EmptyDefaults];
 
 #[derive(Clone, Copy, Debug, PartialEq, Eq, Serialize, Deserialize)]
 pub enum Auth {
@@ -64,8 +66,10 @@ pub enum Auth {
     BasicUnicode,
     BasicNoPass,
     Bearer,
+    /// credentials whose base64 form needs both '+' and '/'
+    BasicPunct,
 }
-const AUTHS: [Auth; 5] = [Auth::None, Auth::Basic, Auth::BasicUnicode, Auth::BasicNoPass, Auth::Bearer];
+const AUTHS: [Auth; 6] = [Auth::None, Auth::Basic, Auth::BasicUnicode, Auth::BasicNoPass, Auth::Bearer, Auth::BasicPunct];
 
 #[derive(Clone, Copy, Debug, PartialEq, Eq, Serialize, Deserialize)]
 pub enum BodySel {
@@ -157,6 +161,7 @@ fn send_a(c: &CaseA) -> Result<(Vec<u8>, Option<Vec<u8>>), String> {
         Hdrs::ObsText => rb = rb.header("X-Obs", http::HeaderValue::from_bytes(b"caf\xe9 \x80\xff").unwrap()),
         Hdrs::SetAfterAppend => rb = rb.header_append("X-Dup", "1").header_append("X-Dup", "2").header("X-Dup", "last"),
         Hdrs::OwnedOverride => rb = rb.header("Connection", "keep-alive").header("Host", "evil.test"),
+        Hdrs::EmptyDefaults => rb = rb.header("User-Agent", "").header("Accept", ""),
     }
     match c.auth {
         Auth::None => {}
@@ -164,6 +169,7 @@ fn send_a(c: &CaseA) -> Result<(Vec<u8>, Option<Vec<u8>>), String> {
         Auth::BasicUnicode => rb = rb.basic_auth("\u{fc}ser", Some("p\u{e4}")),
         Auth::BasicNoPass => rb = rb.basic_auth("u", None::<&str>),
         Auth::Bearer => rb = rb.bearer_auth("tok-._~+/="),
+        Auth::BasicPunct => rb = rb.basic_auth("???>>>", Some(">~")),
     }
     let fail = |e: attohttpc::Error| format!("send: {e}");
     let expected_body: Option<Vec<u8>>;
@@ -235,6 +241,8 @@ fn send_a(c: &CaseA) -> Result<(Vec<u8>, Option<Vec<u8>>), String> {
             let form = attohttpc::MultipartBuilder::new()
                 .with_text("t", "v")
                 .with_file(attohttpc::MultipartFile::new("f", b"\r\n--x\r\n").with_filename("n.bin"))
+                .with_file(attohttpc::MultipartFile::new("g", b"png-data").with_type("image/png").map_err(|e| format!("multipart: {e}"))?)
+                .with_text("u", "w")
                 .build()
                 .map_err(|e| format!("multipart: {e}"))?;
             rb.body(form).send().map_err(fail)?;
@@ -300,6 +308,7 @@ fn check_a(c: &CaseA) -> Vec<(String, String)> {
         Hdrs::DupAppend => vec![("x-dup", vec![b"1", b"2", b"3"])],
         Hdrs::ObsText => vec![("x-obs", vec![b"caf\xe9 \x80\xff"])],
         Hdrs::SetAfterAppend => vec![("x-dup", vec![b"last"])],
+        Hdrs::EmptyDefaults => vec![("user-agent", vec![b""]), ("accept", vec![b""])],
     };
     for (name, vals) in exp_hdr {
         let got = req.header_all(name);
@@ -327,6 +336,7 @@ fn check_a(c: &CaseA) -> Vec<(String, String)> {
         Auth::BasicUnicode => Some("\u{fc}ser:p\u{e4}".as_bytes().to_vec()),
         Auth::BasicNoPass => Some(b"u:".to_vec()),
         Auth::Bearer => Some(b"tok-._~+/=".to_vec()),
+        Auth::BasicPunct => Some(b"???>>>:>~".to_vec()),
     };
     let got_auth = req.header_all("authorization");
     match (&exp_auth, got_auth.as_slice()) {
@@ -364,6 +374,38 @@ fn check_a(c: &CaseA) -> Vec<(String, String)> {
             .collect();
         if got != exp {
             v.push(("form-pairs".into(), format!("form body \"{}\" decodes to {:?}", esc(&req.body), show_pairs(&got))));
+        }
+    }
+    // a multipart body decodes (own RFC 7578 decoder of C15) to the parts the caller added, each with its own data
+    if matches!(c.body, BodySel::Multipart | BodySel::MultipartTextOnly | BodySel::MultipartEmpty) {
+        let exp: Vec<(&str, Option<&str>, &[u8])> = match c.body {
+            BodySel::Multipart => vec![("t", None, b"v"), ("u", None, b"w"), ("f", Some("n.bin"), b"\r\n--x\r\n"), ("g", None, b"png-data")],
+            BodySel::MultipartTextOnly => vec![("first", None, b"one value"), ("second", None, b"another, a bit longer, value with \r\n in it")],
+            _ => vec![],
+        };
+        let decoded = req
+            .header_one("content-type")
+            .and_then(crate::c15::announced_boundary)
+            .and_then(|b| crate::c15::ref_multipart_decode(&req.body, &b));
+        match decoded {
+            Err(e) => v.push(("multipart-body".into(), format!("{:?}: the body does not decode as multipart/form-data under the announced boundary: {e}", c.body))),
+            Ok(d) => {
+                let mut got: Vec<(String, Option<String>, Vec<u8>)> = d.parts.iter().map(|p| (p.part.name.clone(), p.part.filename.clone(), p.part.data.clone())).collect();
+                let mut want: Vec<(String, Option<String>, Vec<u8>)> = exp.iter().map(|(n, f, d)| (n.to_string(), f.map(str::to_string), d.to_vec())).collect();
+                got.sort();
+                want.sort();
+                if got != want {
+                    v.push((
+                        "multipart-body".into(),
+                        format!(
+                            "{:?}: the body decodes to parts {:?}, the caller added {:?}",
+                            c.body,
+                            got.iter().map(|(n, f, d)| format!("{n}/{f:?}/\"{}\"", esc(d))).collect::<Vec<_>>(),
+                            want.iter().map(|(n, f, d)| format!("{n}/{f:?}/\"{}\"", esc(d))).collect::<Vec<_>>()
+                        ),
+                    ));
+                }
+            }
         }
     }
     if req.framing == ReqFraming::None && !req.body.is_empty() {
